@@ -73,6 +73,27 @@ Theorem C18_refcount_tracks_handles : forall ls, ok ls ->
 Proof. exact refcount_tracks_handles. Qed.
 Print Assumptions C18_refcount_tracks_handles.
 
+(** * implicit teardown: dropping the last handle closes the connection *)
+Theorem C18_last_handle_drop_closes : forall ls, ok ls ->
+  driver_alive (run ls) = true -> nhandles (run ls) = 1%Z ->
+  closed (step' (run ls) HDropConn) = true /\ inner_closed (step' (run ls) HDropConn) = true.
+Proof. exact last_handle_drop_closes. Qed.
+Print Assumptions C18_last_handle_drop_closes.
+
+Theorem C18_last_handle_drop_closes_recv : forall ls k, ok ls ->
+  driver_alive (run ls) = true -> nhandles (run ls) = 1%Z ->
+  recv_h (run ls) k = true -> rborrow (run ls) k = None ->
+  closed (step' (run ls) (HDropRecv k)) = true /\ inner_closed (step' (run ls) (HDropRecv k)) = true.
+Proof. exact last_handle_drop_closes_recv. Qed.
+Print Assumptions C18_last_handle_drop_closes_recv.
+
+Theorem C18_last_handle_drop_closes_send : forall ls k, ok ls ->
+  driver_alive (run ls) = true -> nhandles (run ls) = 1%Z ->
+  send_h (run ls) k = true -> wborrow (run ls) k = None ->
+  closed (step' (run ls) (HDropSend k)) = true /\ inner_closed (step' (run ls) (HDropSend k)) = true.
+Proof. exact last_handle_drop_closes_send. Qed.
+Print Assumptions C18_last_handle_drop_closes_send.
+
 (** * close wakes everyone (single-step parts; the run-level part is below) *)
 Theorem C18_closed_poll_never_pends : forall s t o n,
   closed s = true -> snd (app_poll s t o n) <> Pending.
